@@ -661,6 +661,91 @@ struct T16 {
         });
         break;
       }
+      case K_ASSIGN_FROM_TEMP_VIEW: {
+        allow(c, 0, N, true);
+        std::memmove(mi(c, r), mi(c, sr), sizeof(S) * N);
+        with_mut(c, [&](auto& m) {
+          if (k.src_kind == 2) m = smooth::Map<const G>(static_cast<const S*>(ar(c, sr)));
+          else m = smooth::Map<G>(ar(c, sr));
+        });
+        break;
+      }
+      case K_VALUE_FROM_TEMP_VIEW: {
+        c.verbatim_out = 1;
+        const Coef e = Eigen::Map<const Coef>(mi(c, r));
+        emit(c.exp, c.exp_bytes, e);
+        emit(c.exp, c.exp_bytes, e);
+        {
+          G v1 = rand_elem<G>(in), v2 = rand_elem<G>(in);
+          v1 = smooth::Map<G>(ar(c, r));
+          smooth::Map<G> tmp(ar(c, r));
+          v2 = std::move(tmp);
+          emit(c.out, c.out_bytes, v1.coeffs());
+          emit(c.out, c.out_bytes, v2.coeffs());
+        }
+        break;
+      }
+      case K_PART_TO_VALUE: {
+        if constexpr (L::n == 0) {
+          c.applicable = 0;
+        } else {
+          const int part = k.part % L::n;
+          const int off = L::parts[(std::size_t)part].off, len = L::parts[(std::size_t)part].len;
+          const S* mp = mi(c, r) + off;
+          c.verbatim_out = 1;
+          for (int i = 0; i < len; ++i) emit_scalar(c.exp, c.exp_bytes, mp[i]);
+          with_mut(c, [&](auto& m) {
+            with_part(m, part, [&](auto pv, auto idx) {
+              using PV = decltype(pv);
+              constexpr int kind = part_kind<PV>();
+              constexpr int I = decltype(idx)::value;
+              if constexpr (kind == 0) {
+                using P = LiePlain<PV>;
+                P val = rand_elem<P>(in);
+                val = L::template get<I>(m);  // rvalue sub-part view of a mutable view
+                emit(c.out, c.out_bytes, val.coeffs());
+              } else if constexpr (kind == 1) {
+                using Vec = Eigen::Matrix<S, std::decay_t<PV>::SizeAtCompileTime, 1>;
+                Vec val = rand_vec<S, Vec::SizeAtCompileTime>(in, 1.0);
+                val = L::template get<I>(m);
+                emit(c.out, c.out_bytes, val);
+              } else {
+                Eigen::Quaternion<S> q(S(1), S(0), S(0), S(0));
+                q = L::template get<I>(m);
+                emit(c.out, c.out_bytes, q.coeffs());
+              }
+            });
+          });
+        }
+        break;
+      }
+      case K_PART_FROM_TEMP_VIEW: {
+        if constexpr (L::n == 0) {
+          c.applicable = 0;
+        } else {
+          const int part = k.part % L::n;
+          const int off = L::parts[(std::size_t)part].off, len = L::parts[(std::size_t)part].len;
+          allow(c, off, off + len, true);
+          std::memmove(mi(c, r) + off, mi(c, sr) + off, sizeof(S) * (size_t)len);
+          with_mut(c, [&](auto& m) {
+            with_part(m, part, [&](auto pv, auto) {
+              using PV = decltype(pv);
+              constexpr int kind = part_kind<PV>();
+              S* sp = ar(c, sr) + off;  // the same part of the source element, by the documented layout
+              if constexpr (kind == 0) {
+                using P = LiePlain<PV>;
+                pv = smooth::Map<P>(sp);
+              } else if constexpr (kind == 1) {
+                using Vec = Eigen::Matrix<S, std::decay_t<PV>::SizeAtCompileTime, 1>;
+                pv = Eigen::Map<Vec>(sp);
+              } else {
+                pv = Eigen::Map<Eigen::Quaternion<S>>(sp);
+              }
+            });
+          });
+        }
+        break;
+      }
       default: c.applicable = 0; break;
     }
   }
